@@ -98,6 +98,7 @@ def generate(ck):
                 "seed": int(rng.integers(0, 2**31)),
                 "table": str(rng.choice(["haynesville", "pvt_gas"])),
                 "p_i_at": [None, "top", None, "row", None][i % 5],
+                "n_blank_gas": [0, 3, 0, 1][i % 4],
             }
         )
     return descs
@@ -182,6 +183,10 @@ def run_case(ck, desc):
     p_obs = pf.copy()
     idx0 = rng.choice(np.arange(1, n), size=desc["n_zero"], replace=False) if desc["n_zero"] else np.array([], dtype=int)
     gas_obs[idx0] = 0.0
+    if desc["filter"] and desc.get("n_blank_gas"):
+        # days whose production cell is BLANK (NaN), not zero: no production either
+        gas_obs[rng.choice(np.arange(1, n), size=desc["n_blank_gas"], replace=False)] = np.nan
+        ck.count("tables_with_blank_production_cells")
     idxn = rng.choice(np.arange(1, n), size=desc["n_nan"], replace=False) if (desc["n_nan"] and desc["filter"]) else np.array([], dtype=int)
     p_obs[idxn] = np.nan
     prod = pd.DataFrame({"Days": days.astype(float), "Gas": gas_obs, "Pressure": p_obs, "Extra": 1.0})
@@ -194,7 +199,7 @@ def run_case(ck, desc):
     snap = instrument.snapshot(prod)
     OBJ.clear()
     NODES.clear()
-    inplace_max = float(np.sum(gas_obs)) * desc["inplace_factor"]
+    inplace_max = float(np.nansum(gas_obs)) * desc["inplace_factor"]
     # the caller's first guess of the initial pressure: usually above the frac-face pressures, but a
     # third of the time BELOW the highest one (a choked-back start-up): the declared lower limit is
     # the highest frac-face pressure regardless
